@@ -196,6 +196,11 @@ func c18Check(c *core.Ctx, cs c18Case) {
 		return
 	}
 	c.Count("transparent_runs", 1)
+	if plain.stderr != "" {
+		// the run ended with an error message: goawk exits before writing a profile
+		c.Count("error_runs_without_profile", 1)
+		return
+	}
 	ptext, perr := os.ReadFile(prof)
 	if perr != nil {
 		if plain.stderr == "" {
